@@ -36,8 +36,9 @@ Example modulo_by_zero_reaches_recover :
   fst (run_api 20 {| p_stmts := []; p_ret := BReturn (EMath MMod (EInt 1) (EInt 0)) |}
                (init_world [] false None)) = AError.
 Proof. split; reflexivity. Qed.
-Example negative_index_reaches_recover :
+(* a string index outside the string is a Go run-time fault, reported as an error *)
+Example string_index_fault_reaches_recover :
   fst (run_api 20 {| p_stmts := [];
-                     p_ret := BReturn (EMember (EArr [EInt 1; EInt 2]) [Seg false (EInt (-1))]) |}
-               (init_world [] false None)) = AError.
+                     p_ret := BReturn (EMember (EParam (bs "s")) [Seg false (EInt 5)]) |}
+               (init_world [(bs "s", VStr (bs "k"))] false None)) = AError.
 Proof. reflexivity. Qed.
